@@ -458,6 +458,8 @@ type oracle struct {
 	tr    *tracer
 	solos []*soloInfo
 	memo  map[string]bool
+	e     *ev.Env
+	c     *ev.Case
 }
 
 func (o *oracle) solo(i int, m, path string) bool {
@@ -475,6 +477,28 @@ func (o *oracle) solo(i int, m, path string) bool {
 	do(s.d, m, path)
 	v := len(o.tr.ids) > 0
 	o.memo[key] = v
+	// Index-free cross-check: an endpoint registered directly on the app handles a path alone
+	// exactly when RoutePatternMatch (which never consults the 3-byte lookup index) says the
+	// pattern matches it.
+	u := &o.p.Units[i]
+	if o.e != nil && u.Gid < 0 && len(u.RoutePath) == 0 && (u.Kind == "m" || u.Kind == "add" || u.Kind == "all") && validMethod(o.p.Cfg, m) &&
+		!strings.ContainsAny(path, "?#") {
+		handles := u.Kind == "all"
+		for _, um := range u.Methods {
+			if um == m {
+				handles = true
+			}
+		}
+		if handles {
+			rpm := fiber.RoutePatternMatch(path, u.Path, o.p.Cfg.FiberConfig())
+			o.e.Eval(1)
+			if rpm != v {
+				o.e.Violation(o.c, fmt.Sprintf("dispatch|lookup-index-not-transparent|route-alone-%v-RoutePatternMatch-%v", v, rpm),
+					fmt.Sprintf("%s %s on an app holding only %s %q: handler ran=%v, RoutePatternMatch=%v", m, path, u.Kind, u.Path, v, rpm),
+					map[string]any{"cfg": o.p.Cfg.String(), "unit": u, "method": m, "path": path})
+			}
+		}
+	}
 	return v
 }
 
@@ -720,7 +744,7 @@ func checkProgram(e *ev.Env, c *ev.Case, p *program, reqs [][2]string) {
 	if e.Guard(c, "dispatch|build", p, func() { full = drive.NewDirect(buildFull(p, tr)) }) {
 		return
 	}
-	o := &oracle{p: p, tr: tr, solos: make([]*soloInfo, len(p.Units)), memo: map[string]bool{}}
+	o := &oracle{p: p, tr: tr, solos: make([]*soloInfo, len(p.Units)), memo: map[string]bool{}, e: e, c: c}
 	for _, rq := range reqs {
 		m, path := rq[0], rq[1]
 		var ex *expectation
@@ -771,6 +795,11 @@ func checkProgram(e *ev.Env, c *ev.Case, p *program, reqs [][2]string) {
 			}
 			e.Violation(c, sig,
 				fmt.Sprintf("%s %s ran handlers %v, registration-order filter of individually matching routes gives %v", m, path, got, ex.Trace), detail())
+			continue
+		}
+		if ex.Exhausted && ex.Status == 0 && resp.Status == 405 {
+			e.Violation(c, "dispatch|status-405-although-endpoint-of-method-matched|"+ctxClass,
+				fmt.Sprintf("%s %s: an endpoint of this method matched (and passed on), yet the reply is 405", m, path), detail())
 			continue
 		}
 		if ex.Status != 0 && resp.Status != ex.Status {
